@@ -58,21 +58,18 @@ TallyE(acc, a, b, w) ==
 RECURSIVE Pow2(_)
 Pow2(n) == IF n = 0 THEN 1 ELSE 2 * Pow2(n - 1)
 
-Numbering(atoms) ==
-  LET sq == SetToSeq(atoms)
-      n == Len(sq)
-      rot == IF n = 0 THEN 0 ELSE Rot % n
-  IN [n |-> n, at |-> [j \in 1..n |-> sq[((j - 1 + rot) % n) + 1]]]
 \* value-coherent numbering: atoms over the first base value come first, then those that also use the second, ... so that a
-\* capped core always contains ALL predicates over a sub-base of values (the rotation by the seed picks which values)
+\* capped core always contains ALL predicates over a sub-base of values (the rotation by the seed picks which values); with an
+\* arbitrary order the few atoms that witness a difference are rarely enumerated together
 ValueNumbering(atoms) ==
   LET vs == SetToSeq(BaseValues)
       m == Len(vs)
       rot == IF m = 0 THEN 0 ELSE Rot % m
-      pos(v) == LET j == CHOOSE k \in 1..m : vs[k] = v IN ((j - 1 + m - rot) % m) + 1
-      rank(a) == IF Len(a[2]) = 0 THEN 0 ELSE CHOOSE x \in {pos(a[2][k]) : k \in DOMAIN a[2]} : \A y \in {pos(a[2][k]) : k \in DOMAIN a[2]} : x >= y
-      sq == SortSeq(SetToSeq(atoms), LAMBDA a, b : rank(a) < rank(b))
+      pos == TLCEval([v \in BaseValues |-> LET j == CHOOSE k \in 1..m : vs[k] = v IN ((j - 1 + m - rot) % m) + 1])
+      rank == TLCEval([a \in atoms |-> IF Len(a[2]) = 0 THEN 0 ELSE CHOOSE x \in {pos[a[2][k]] : k \in DOMAIN a[2]} : \A y \in {pos[a[2][k]] : k \in DOMAIN a[2]} : x >= y])
+      sq == SortSeq(SetToSeq(atoms), LAMBDA a, b : rank[a] < rank[b])
   IN [n |-> Len(sq), at |-> sq]
+Numbering(atoms) == ValueNumbering(atoms)
 UnIndex(S, nb) == {nb.at[j] : j \in S}
 Indexer(atoms, nb) == [a \in atoms |-> CHOOSE j \in 1..nb.n : nb.at[j] = a]
 
